@@ -477,7 +477,9 @@ def c2s_sessions(ctx, report, n):
             h = caller_view(h, s)
         if steps:
             obs.append({'heap': heap, 'steps': steps})
-    bad = ctx.validate('Trace_OpsSession', obs, cfg='Trace_OpsSession.cfg')
+    bad = []
+    for k in range(0, len(obs), 1500):         # (a recorded session is a long line: keep each log small)
+        bad += [(ln + k, v) for ln, v in ctx.validate('Trace_OpsSession', obs[k:k + 1500], cfg='Trace_OpsSession.cfg')]
     outside = 0
     for ln, verdict in bad:
         o = obs[ln - 1]
